@@ -35,6 +35,22 @@ def gen(wd, family: str, mode: str, *, rnd_seed=None, rndn=5, rndk=4):
     return cached(f"idgen-{family}-{mode}", go, module="IDGen")
 
 
+def gen_x(wd):
+    """Targeted inputs of IDGenX.tla: every identifiable query of family CH5 whose run reaches line 6 after a line 7 with a
+    district of >= 2 variables and a treatment between two of them in the (forced) topological order."""
+    def go():
+        cfg = wd / "IDGenX.cfg"
+        cfg.write_text('SPECIFICATION SpecX\nCONSTANTS\n  Family = "CH5"\n  Mode = "id"\n  RndN = 5\n  RndK = 1\nCHECK_DEADLOCK FALSE\n')
+        r = tlc("IDGenX.tla", str(cfg), workers=NCPU, meta=wd / "idgenx", xmx="6g")
+        tlc_ok(r, "IDGenX")
+        items = tagged_lines(r["out"], "IDG")
+        items.sort(key=lambda it: json.dumps(it["g"], sort_keys=True))
+        for it in items:
+            it["qs"] = sorted([sorted(q[0]), sorted(q[1]), sorted(q[2]), q[3]] + list(q[4:]) for q in it["qs"])
+        return {"items": items, "generated": r["generated"], "distinct": r["distinct"]}
+    return cached("idgenx-CH5", go, module="IDGenX")
+
+
 def mc(wd, family: str, mode: str, seeds=(1, 2)):
     """Design-level model checking of the reference algorithm against the SCM semantics."""
     def go():
